@@ -102,7 +102,7 @@ table (void)
 			snprintf (link, sizeof (link), "/proc/self/fd/%d", fds [k]) ;
 			r = readlink (link, target, sizeof (target) - 1) ;
 			target [r > 0 ? r : 0] = 0 ;
-			if (!strncmp (target, tmp, strlen (tmp)) && strncmp (target, dir, strlen (dir))) snprintf (who, sizeof (who), "tmp") ;
+			if (!strncmp (target, tmp, strlen (tmp))) snprintf (who, sizeof (who), "tmp") ;
 			}
 		printf ("%s%d:%s", first ? "" : ",", fds [k], who) ;
 		first = 0 ;
@@ -159,6 +159,14 @@ op_fdworld (char **tok, int ntok)
 		{	int dummy [MAXFD] ; (void) list_open (dummy, MAXFD) ; }
 		snprintf (dir, sizeof (dir), "%s/fdw-%d", b ? b : "/var/tmp", (int) getpid ()) ;
 		mkdir (dir, 0700) ;
+		/* a private TMPDIR per process: the ALAC spool file is `<TMPDIR>/<rand><rand>-alac.tmp`, opened without O_EXCL, with the generator
+		** seeded from the clock -- two harness PROCESSES started in the same microsecond would share one spool file (not a C19 matter:
+		** C19 is about handles inside one process) */
+		{	static char tmpd [300] ;
+			snprintf (tmpd, sizeof (tmpd), "%s/tmp", dir) ;
+			mkdir (tmpd, 0700) ;
+			setenv ("TMPDIR", tmpd, 1) ;
+			}
 		for (k = 0 ; k < NSLOT ; k++) { memset (&hs [k], 0, sizeof (hs [k])) ; hs [k].userfd = -1 ; memset (&ks [k], 0, sizeof (ks [k])) ; ks [k].fd = -1 ; }
 		nbase = list_open (base, MAXFD) ;
 		printf ("ok open=") ;
